@@ -350,3 +350,67 @@ Proof.
   unfold where_res in Hw. destruct (where_of_calls cs) as [w0|]; [|discriminate].
   destruct (upd_where_res c tbl w0); [discriminate|]. injection Hw as <-. reflexivity.
 Qed.
+
+(* ------------------------------------------------------------------------------------------------ *)
+(* ANY values (terms included): the positional structure of the text                                 *)
+(* ------------------------------------------------------------------------------------------------ *)
+Lemma sets_fields c : forall ps : list (colarg * pyval), forallb (fun p => str_col (fst p)) ps = true ->
+  map (fun fv : term * (wk * term) => (fst fv, IT (snd (snd fv)))) (map (fun p => (set_field (fst p), wrap_set c (snd p))) ps)
+  = map (fun p : string * (wk * term) => (TField (fst p) None None, IT (snd (snd p))))
+        (map (fun p : colarg * pyval => (col_str (fst p), wrap_set c (snd p))) ps).
+Proof.
+  induction ps as [|[f v] r IH]; intros H; [reflexivity|]. cbn [forallb fst] in H. apply andb_prop in H as [Hf Hr].
+  destruct f as [s|t]; [|discriminate]. cbn [map fst snd set_field col_str]. rewrite (IH Hr). reflexivity.
+Qed.
+
+Theorem update_structure_any c tbl cs texts wo :
+  dml_cls_ok c = true -> plain_table tbl = true ->
+  forallb update_call_ok cs = true ->
+  sets_of_calls cs <> [] -> forallb (fun p => str_col (fst p)) (sets_of_calls cs) = true ->
+  mapM (fun p : colarg * pyval => set_value_res c tbl (where_of_calls cs) (snd (wrap_set c (snd p)))) (sets_of_calls cs) = Ok texts ->
+  where_res (upd_where_res c tbl) (where_of_calls cs) = Ok wo ->
+  exists st, run c (SUpdate tbl) cs = Ok st
+    /\ dml_text st = Ok (update_text_x (tname tbl) (combine (map (fun p => col_str (fst p)) (sets_of_calls cs)) texts) wo).
+Proof.
+  intros Hc Ht Hcs Hne Hcols Hv Hw.
+  destruct (update_calls_inert cs Hcs) as (I1 & I2 & I3 & I4 & I5 & I6 & I7).
+  destruct (run_positional_nodml cs (init c (SUpdate tbl)) I7) as (st & Hrun & P).
+  destruct P as (Pv & Pc & Pu & Pf & Pw & Pl & Pfr & Ps & Pcl & Pi & Pup & Pd).
+  cbn [init d_values d_columns d_updates d_replace d_ior d_where d_limit d_from d_selects d_cls d_into d_update d_delete app] in *.
+  rewrite I3 in Pfr. rewrite I6 in Pl. fold (where_of_calls cs) in Pw.
+  exists st. split; [exact Hrun|].
+  unfold dml_text, state_query, state_kind. rewrite Pup. cbn iota. rewrite Pu, Pfr, Pw, Pl, Pcl, (sets_fields c _ Hcols). cbn [map].
+  rewrite (str_query_update_any c Hc tbl _ (where_of_calls cs) texts Ht).
+  - rewrite map_map. cbn [fst]. unfold where_res in Hw. destruct (where_of_calls cs) as [w0|].
+    + destruct (upd_where_res c tbl w0); [|discriminate]. injection Hw as <-. reflexivity.
+    + injection Hw as <-. reflexivity.
+  - destruct (sets_of_calls cs); [congruence|discriminate].
+  - rewrite mapM_map. cbn [snd]. exact Hv.
+Qed.
+
+Theorem insert_structure_any c tbl cs texts :
+  dml_cls_ok c = true -> plain_table tbl = true ->
+  forallb (insert_call_ok c) cs = true ->
+  forallb str_col (cols_of_calls cs) = true ->
+  rows_of_calls cs <> [] ->
+  mapM (fun row : list pyval => mapM (fun v => ins_value_res c (snd (wrap_constant v))) row) (rows_of_calls cs) = Ok texts ->
+  exists st, run c (SInto tbl) cs = Ok st
+    /\ dml_text st = Ok (insert_text_x (mode_of_calls cs) (tname tbl) (map col_str (cols_of_calls cs)) texts).
+Proof.
+  intros Hc Ht Hcs Hcols Hne Hv.
+  destruct (run_positional_into cs (init c (SInto tbl)) tbl eq_refl
+              (forallb_impl _ _ cs (insert_ok_call_ok c) Hcs)) as (st & Hrun & P).
+  destruct P as (Pv & Pc & Pu & Pf & Pw & Pl & Pfr & Ps & Pcl & Pi & Pup & Pd).
+  cbn [init d_values d_columns d_updates d_replace d_ior d_where d_limit d_from d_selects d_cls d_into d_update d_delete app] in *.
+  destruct (str_cols_terms tbl _ Hcols) as [Ec Hnames].
+  exists st. split; [exact Hrun|].
+  assert (Hq : str_query (QIns c tbl (d_columns st) (map (map (fun x => IT (snd x))) (d_values st)) (sel_query st) (d_replace st) None)
+               = Ok (insert_text_x (if d_replace st then MReplace else MInsert) (tname tbl) (map col_str (cols_of_calls cs)) texts)).
+  { rewrite Pc, Ec, Pv. apply (str_query_insert_any c Hc tbl _ _ (sel_query st) (d_replace st) texts Ht).
+    - destruct (rows_of_calls cs); [congruence|discriminate].
+    - rewrite mapM_map. rewrite <- Hv. clear. induction (rows_of_calls cs) as [|r rs IH]; [reflexivity|].
+      cbn [mapM]. rewrite mapM_map. rewrite IH. reflexivity. }
+  unfold dml_text, state_query, state_kind. rewrite Pup, Pd, Pi, Pcl. cbn iota. rewrite Hq.
+  unfold mode_of_calls, flags_of_calls. rewrite <- Pf. unfold mode_of_flags. cbn [fst snd].
+  destruct (d_replace st); [|reflexivity]. destruct (d_ior st); reflexivity.
+Qed.
